@@ -45,11 +45,18 @@ type Conn struct {
 	// write that crosses the limit is cut short: it reports the bytes that still fitted and ErrReset.
 	WriteLimit int
 	reset      bool
+	// WriteStall: the peer stays connected but has stopped reading and the buffers are full - a Write does not
+	// return until Release, or until the connection is closed (it then fails), as a kernel socket behaves
+	WriteStall bool
+	release    chan struct{}
 	acceptErr  error
 	pushed     int   // chunks put into inq so far
 	popped     int   // chunks taken out so far
 	resets     []int // positions (in push order) of reset markers
 }
+
+// Release lets one stalled Write complete.
+func (c *Conn) Release() { c.release <- struct{}{} }
 
 // ErrReset is what reads and writes report after the peer reset the connection.
 var ErrReset = errors.New("vnet: connection reset by peer")
@@ -70,7 +77,7 @@ func NewConn(name string) *Conn {
 	nextFd++
 	cr := NextCred
 	NextCred = nil
-	return &Conn{Fd: nextFd, Cred: cr, Name: name, inq: make(chan []byte, 64), closeq: make(chan struct{}), local: "local:" + Addr(name), remote: "remote:" + Addr(name)}
+	return &Conn{Fd: nextFd, Cred: cr, Name: name, inq: make(chan []byte, 64), closeq: make(chan struct{}), release: make(chan struct{}, 64), local: "local:" + Addr(name), remote: "remote:" + Addr(name)}
 }
 
 func (c *Conn) Read(b []byte) (int, error) {
@@ -112,6 +119,13 @@ func (c *Conn) Write(b []byte) (int, error) {
 	}
 	if c.reset {
 		return 0, ErrReset
+	}
+	if c.WriteStall {
+		select {
+		case <-c.release:
+		case <-c.closeq:
+			return 0, errClosed
+		}
 	}
 	if c.WriteLimit > 0 && len(c.Out)+len(b) > c.WriteLimit {
 		n := c.WriteLimit - len(c.Out)
